@@ -53,7 +53,7 @@ func (*c19) Rule() string {
 		"non-ASCII, title-case digraphs, float specials, int extremes, times in UTC/fixed/named zones with a non-UTC process-local zone in half of the times cases), documented coercions " +
 		"(bytes/int/bool/char for string, float/char/bool/string for int, int/string for float, int for time: engine must return the reference value or reject the type), " +
 		"non-convertible argument types (must be a run-time error 'invalid type for argument'), wrong arities (must be 'wrong number of arguments'), Go-error inputs (must be error VALUES), " +
-		"and string/bytes limit boundaries (MaxStringLen/MaxBytesLen set to len(reference result) or one less, never below the longest input: limit error exactly when the result is longer). " +
+		"and string/bytes limit boundaries (MaxStringLen/MaxBytesLen set to len(reference result) or one less, never below the longest input: a result that fits must be the reference value; a longer one may be the limit error or the reference value, the statement being silent). " +
 		"distinct = distinct (function, mode, rendered arguments); non-trivial = a call judged against a reference value; dist:<fn> counters = cases in which the inputs separated fn from every sibling of the same signature"
 }
 
@@ -62,8 +62,10 @@ func (*c19) Assumptions() []string {
 		"the Go standard library of the local toolchain (strings, strconv, regexp, math, encoding/base64, encoding/hex, time) is the executable specification; engine and reference share libm so floats compare bit-exactly (NaN = NaN)",
 		"result typing follows the Go function (Ilogb -> int, IsInf/IsNaN/Signbit -> bool) where stdlib-math.md carelessly prints '=> float'",
 		"arguments outside the Go function's domain are not generated (negative repeat counts, format_int base outside 2..36, empty format_float verb, bitSize other than 32/64, time_unix_nano outside 1678..2262)",
-		"where the docs are silent the verdict is weakened, not invented: omitted optional arguments not described by the docs (re_find/re_split/find/split without count, substr without upper), out-of-range substr bounds, empty pad strings: totality only (no Go panic); " +
-			"partial pad repetitions: only length/position/content-from-pad; regexp groups that did not participate: may be omitted; coercions: coerced value OR type rejection",
+		"where the docs are silent the verdict is weakened, not invented: out-of-range substr bounds and empty pad strings: totality only (no Go panic); " +
+			"partial pad repetitions: only length/position/content-from-pad; regexp groups that did not participate: may be omitted; coercions: coerced value OR type rejection; " +
+			"trailing parameters the docs list but the engine lets callers omit: substr without upper = Go's s[lower:], re_split/Regexp.split without count = Go's n<0 (all), " +
+			"re_find/Regexp.find without count = the result for count 1 or for count -1 (either reading accepted); calls that omit them are not used as wrong-arity inputs",
 		"'length' of pad_left/pad_right is the byte length, as len() of the language",
 		"enum on multi-key maps is judged order-insensitively (sorted / any-of-the-matching) because map iteration order is unspecified; strings/bytes are not used as 'not enumerable' inputs (docs ambiguous)",
 		"limit runs: every input string respects the limit, so only the produced value can exceed it (docs/interoperability.md: MaxStringLen is the maximum byte-length of string values)",
@@ -420,7 +422,7 @@ func (g *c19G) str() string {
 
 var c19PairPool = [][2]string{{"ababXabab", "ab"}, {"axxbaxba", "ba"}, {"abc", "cb"}, {"Go", "GO"}, {"A", "a"}, {"a,b,c", ","}, {"a,b", ","}, {"", ""}, {"abc", ""}, {"", "a"},
 	{"日本語日本", "日本"}, {"ééXéé", "é"}, {"  x  ", " "}, {"xabcab", "ab"}, {"aaa", "aa"}, {"abcabc", "abc"}, {"ſ", "S"}, {"héllo", "lo"}, {"héllo", "hé"}, {"ab", "abab"},
-	{"a b\tc", " \t"}, {"123", "1"}, {"xyzzy", "zy"}, {"STRASSE", "strasse"}}
+	{"a b\tc", " \t"}, {"123", "1"}, {"xyzzy", "zy"}, {"STRASSE", "strasse"}, {"日本語", ""}, {"héllo😀x", ""}, {"a€b", ""}, {"\xff日", ""}, {"😀", ""}}
 
 // pairSS: (s, needle) where the needle usually occurs several times in s,
 // possibly repeated at both ends.
@@ -1020,16 +1022,16 @@ func (c *c19) RunCase(r *fw.Rec, cs fw.Case) {
 			r.Distinct(f.full, "l", fmt.Sprint(sl, bl), call.expr, strings.Join(c19ShowArgs(call.args), ";"))
 			extra := map[string]interface{}{"MaxStringLen": sl, "MaxBytesLen": bl, "longest_result_string": ms, "longest_result_bytes": mb}
 			if over {
+				// The property statement does not say what a call does when the
+				// Go result is longer than a configured maximum: the limit error
+				// and the Go result are both accepted, anything else is judged.
 				r.Inc("mode:limit/over")
 				if c19IsLimitErr(&res) {
+					r.Inc("mode:limit/over/limit-error")
 					continue
 				}
-				if res.phase == "go-panic" || res.phase == "panic" {
-					c.judge(r, f, "limit", &call, call.args, &want, &res, extra)
-					continue
-				}
-				c.violate(r, f, "limit", "the result is longer than the configured maximum length but the call did not fail with the limit error", call.args, &res,
-					"run-time error: exceeding string/bytes size limit", extra)
+				r.Inc("mode:limit/over/value")
+				c.judge(r, f, "limit", &call, call.args, &want, &res, extra)
 				continue
 			}
 			r.Inc("mode:limit/within")
@@ -1080,7 +1082,7 @@ func (c *c19) judge(r *fw.Rec, f *c19Fn, mode string, call *c19Call, args []teng
 		kind, what = "coerce", "an argument accepted through the documented conversion did not yield the result for the converted value"
 	}
 	if mode == "limit" {
-		kind, what = "limit", "the result fits the configured maximum length but the call did not return the reference value"
+		kind, what = "limit", "under a configured maximum length the call returned neither the reference value nor (for a result longer than the maximum) the limit error"
 	}
 	if want.kind == wErrValue {
 		kind = "error-value"
@@ -1132,10 +1134,15 @@ func (c *c19) Finish(m *fw.Merged, tier string) {
 			m.Fail("never observed: " + k)
 		}
 	}
+	var untabled []string
 	for k := range m.Counters {
 		if strings.HasPrefix(k, "untabled:") {
-			m.Fail("module member without a reference in the C19 table: " + strings.TrimPrefix(k, "untabled:"))
+			untabled = append(untabled, strings.TrimPrefix(k, "untabled:"))
 		}
+	}
+	sort.Strings(untabled)
+	for _, k := range untabled {
+		m.Fail("module member without a reference in the C19 table: " + k)
 	}
 }
 
@@ -1221,9 +1228,9 @@ func c19MetaDocNames(r *fw.Rec, cs fw.Case) {
 			r.Inc("documented-names")
 			r.Distinct("meta.docname", mod, name)
 			if _, ok := mem[name]; !ok {
-				r.Violate("doc-name:"+mod+"."+name, mod+"."+name+": the module documentation lists this member but the module has no member of that name (it evaluates to undefined)",
-					map[string]interface{}{"function": mod + "." + name, "script": "m := import(\"" + mod + "\"); out := m." + name, "got": "undefined (no such member)",
-						"want": "the documented member", "doc": "docs/stdlib-" + mod + ".md"})
+				// a misspelt name in the documentation (sprtPi, ln10E) is not a
+				// wrong result of any function: counted, not judged
+				r.Inc("documented-name-not-in-module:" + mod + "." + name)
 			}
 		}
 	}
